@@ -4,7 +4,7 @@
 //! public getter returns the limbs (nor `drift`).  What IS public: `LookupTable::{alloc,set,extension_factor,domain_size,
 //! rotation_direction,set_rotation_direction}`, the infos trait (n, k, base2k, size) and -- through the public trait
 //! `LookupTableFactory` -- `Module::lookup_table_rotate(k, &mut lut)`.  Until a `#[cfg(poulpy_verif)]` accessor exists the
-//! limbs are read through `peek`: a field-for-field mirror struct (same field types, same order => same layout under the
+//! limbs are read through the hook accessors (cargo feature `c14hook`) or, without the feature, through `peek`: a field-for-field mirror struct (same field types, same order => same layout under the
 //! same rustc without -Zrandomize-layout), guarded at run time by size/align and by cross-checking every public getter;
 //! op 14010 (blind rotation with a zero mask: exact, noise free, no decryption) reads the same limbs through the public
 //! API only and so validates the mirror on every run.
@@ -54,6 +54,7 @@ struct LutMirror {
     drift: usize,
 }
 
+#[allow(dead_code)]
 fn peek(lut: &LookupTable) -> &LutMirror {
     assert_eq!(std::mem::size_of::<LutMirror>(), std::mem::size_of::<LookupTable>());
     assert_eq!(std::mem::align_of::<LutMirror>(), std::mem::align_of::<LookupTable>());
@@ -74,10 +75,23 @@ fn flat(v: &VecZnx<Vec<u8>>, col: usize) -> Vec<i128> {
     w
 }
 
-fn dump_lut(lut: &LookupTable) -> Vec<Vec<i128>> {
+/// the ext polynomials and drift of a table: through the guarded accessors when the harness is built with the
+/// cargo feature `c14hook` (needs /repo's `#[cfg(poulpy_verif)] LookupTable::{verif_limbs, verif_drift}`), through the
+/// layout mirror otherwise
+#[cfg(feature = "c14hook")]
+fn lut_parts(lut: &LookupTable) -> (&[VecZnx<Vec<u8>>], usize) {
+    (lut.verif_limbs(), lut.verif_drift())
+}
+#[cfg(not(feature = "c14hook"))]
+fn lut_parts(lut: &LookupTable) -> (&[VecZnx<Vec<u8>>], usize) {
     let m = peek(lut);
-    let mut out: Vec<Vec<i128>> = m.data.iter().map(|v| flat(v, 0)).collect();
-    out.push(vec![m.drift as i128]);
+    (&m.data[..], m.drift)
+}
+
+fn dump_lut(lut: &LookupTable) -> Vec<Vec<i128>> {
+    let (data, drift) = lut_parts(lut);
+    let mut out: Vec<Vec<i128>> = data.iter().map(|v| flat(v, 0)).collect();
+    out.push(vec![drift as i128]);
     out
 }
 
@@ -272,7 +286,7 @@ fn op(r: &Rec) -> Vec<Vec<i128>> {
                     return r.vs[1].iter().map(|k| {
                         let mut lut = mk_lut(&m, n, ext, base2k, k_lut, kmsg, &f);
                         m.lookup_table_rotate(*k as i64, &mut lut);
-                        let d = &peek(&lut).data[0];
+                        let d = &lut_parts(&lut).0[0];
                         (0..d.size()).map(|j| d.at(0, j)[0] as i128).collect()
                     }).collect();
                 }
@@ -392,7 +406,8 @@ pub fn generate(tier: &str, seed: u64) -> Vec<Rec> {
             for dir in [0i128, 1] {
                 let log2n = (128 - (n2 - 1).leading_zeros()) as usize + 1;
                 let need = if b > log2n { 1 } else { log2n.div_ceil(b) };
-                for size in [need, need + 1] {
+                let mut sizes = vec![need.saturating_sub(1).max(1), need, need + 1]; sizes.dedup();
+                for size in sizes {
                     let lo = -(1i64 << (b - 1)); let hi = 1i64 << (b - 1);
                     let mut limbs: Vec<Vec<i128>> = vec![vec![]; size];
                     for x0 in lo..hi {
